@@ -63,6 +63,13 @@ type caller struct {
 type queue struct {
 	mu      sync.Mutex
 	callers []*caller
+	// retired is set (under mu) when the last caller left and the queue was
+	// dropped from the lock's map. A goroutine that fetched the queue before
+	// that moment must not append to it: enqueue reports false and the caller
+	// fetches a fresh queue, so no per-key state outlives its last caller.
+	retired bool
+	// onEmpty drops the queue from the owning map; it is called under mu.
+	onEmpty func(q *queue)
 }
 
 func newQueue() *queue {
@@ -71,14 +78,18 @@ func newQueue() *queue {
 
 // enqueue appends a new caller. If it lands at the head (queue was empty),
 // its ready channel is pre-closed so it can proceed immediately.
-func (q *queue) enqueue(c *caller) {
+func (q *queue) enqueue(c *caller) bool {
 	q.mu.Lock()
 	defer q.mu.Unlock()
+	if q.retired {
+		return false
+	}
 	wasEmpty := len(q.callers) == 0
 	q.callers = append(q.callers, c)
 	if wasEmpty {
 		close(c.ready)
 	}
+	return true
 }
 
 // remove deletes the caller with the given id from the queue. If the removed
@@ -101,6 +112,10 @@ func (q *queue) remove(id string) bool {
 			// Wake the next waiter.
 			close(q.callers[0].ready)
 		}
+		if len(q.callers) == 0 && q.onEmpty != nil {
+			q.retired = true
+			q.onEmpty(q)
+		}
 		return true
 	}
 	return false
@@ -110,7 +125,9 @@ func (l *lock) getQueue(key string) *queue {
 	if v, ok := l.queues.Load(key); ok {
 		return v.(*queue)
 	}
-	actual, _ := l.queues.LoadOrStore(key, newQueue())
+	nq := newQueue()
+	nq.onEmpty = func(q *queue) { l.queues.CompareAndDelete(key, q) }
+	actual, _ := l.queues.LoadOrStore(key, nq)
 	return actual.(*queue)
 }
 
@@ -124,7 +141,10 @@ func (l *lock) Lock(ctx context.Context, key string, ttl time.Duration) (lockID 
 	}
 
 	q := l.getQueue(key)
-	q.enqueue(c)
+	for !q.enqueue(c) {
+		// The queue emptied and was dropped between getQueue and enqueue.
+		q = l.getQueue(key)
+	}
 
 	// Wait until either we become the head of the queue (ready closed),
 	// or the caller's context is done.
